@@ -279,6 +279,19 @@ func c02Frame(r *Run, threshold int, cap_ int, allowBig bool) ([]byte, string) {
 		return rawFrame([]byte{0x80, 0x80}), "claimed-varint-truncated"
 	case 13: // envelope with claimed 0 and empty payload
 		return rawFrame([]byte{0}), "uncompressed-empty"
+	case 14, 15: // claimed size as a 5-byte VarInt whose last byte carries bits beyond 32 (dropped, as Velocity's reader does)
+		pad := func(v int32) []byte {
+			u := uint32(v)
+			return []byte{byte(u) | 0x80, byte(u>>7) | 0x80, byte(u>>14) | 0x80, byte(u>>21) | 0x80, byte(u>>28)&0x0f | byte(1+r.W.Pick(7))<<4}
+		}
+		p := c02Content(r, size())
+		if kind == 14 && len(p) <= threshold {
+			return rawFrame(append(pad(0), p...)), "claimed-varint-overflow-bits:uncompressed"
+		}
+		if len(p) >= threshold && len(p) > 0 {
+			return rawFrame(append(pad(int32(len(p))), zlibBytes(p)...)), "claimed-varint-overflow-bits:compressed"
+		}
+		return env(0, p), "valid-uncompressed"
 	}
 	// valid frame
 	p := c02Content(r, size())
